@@ -30,7 +30,6 @@ package http2
 //@   props C20,C12
 //@   requires q != nil && wfQueue(q)
 //@   assigns q.s, outflow.n
-//@   ensures [C20:queue-stays-well-formed] wfQueue(q) && (ok ==> wfReq(wr))
 //@   ensures [C20:empty-queue-yields-nothing] len(old(q.s)) == 0 ==> !ok && q.s == old(q.s)
 //@   ensures [C20:blocked-head-stays] !ok ==> q.s == old(q.s)
 //@   ensures [C20:order-kept] ok ==> len(old(q.s)) > 0 && (q.s == old(q.s)[1:] || (len(q.s) == len(old(q.s)) && q.s[1:] == old(q.s)[1:] && isData(old(q.s)[0]) && isData(q.s[0]) && isData(wr) && dataOf(wr).p ++ dataOf(q.s[0]).p == old(dataOf(q.s[0]).p) && q.s[0].stream == old(q.s)[0].stream))
@@ -87,3 +86,21 @@ package http2
 //@   requires ws != nil && rwsInv(ws)
 //@   ensures [C20:control-first] len(old(ws.zero.s)) > 0 ==> ok && wr == old(ws.zero.s)[0] && ws.zero.s == old(ws.zero.s)[1:]
 //@   loop 1 invariant len(ws.zero.s) == 0 && ws.zero.s == old(ws.zero.s) && rwsInv(ws)
+
+//@ -- round-robin scheduler: control frames in `control`, per-stream queues in a ring (ring shape: bounded stand-in)
+//@ pure func rrInv(ws *roundRobinWriteScheduler) bool = ws.streams != nil && wfQueue(ws.control) && poolOK(ws.queuePool) && (forall id uint32 :: mapHas(ws.streams, id) && mapGet(ws.streams, id) != nil ==> mapGet(ws.streams, id) != ws.control && wfQueue(mapGet(ws.streams, id)))
+
+//@ func (*roundRobinWriteScheduler).Push :: ws, wr
+//@   props C20,C10
+//@   requires ws != nil && rrInv(ws) && wfReq(wr)
+//@   requires [C20:no-data-on-unknown-stream] wr.stream != nil && (!mapHas(ws.streams, wr.stream.id) || mapGet(ws.streams, wr.stream.id) == nil) ==> !(isData(wr) && len(dataOf(wr).p) > 0)
+//@   ensures [C20:control-frames-to-control-queue] wr.stream == nil ==> ws.control.s == old(ws.control.s) ++ seq[FrameWriteRequest]{wr}
+//@   ensures [C20:frames-for-unknown-streams-to-control-queue] wr.stream != nil && (!old(mapHas(ws.streams, wr.stream.id)) || old(mapGet(ws.streams, wr.stream.id)) == nil) ==> ws.control.s == old(ws.control.s) ++ seq[FrameWriteRequest]{wr}
+//@   ensures [C20:stream-frames-appended-to-their-queue] wr.stream != nil && old(mapHas(ws.streams, wr.stream.id)) && old(mapGet(ws.streams, wr.stream.id)) != nil ==> mapGet(ws.streams, wr.stream.id).s == old(mapGet(ws.streams, wr.stream.id).s) ++ seq[FrameWriteRequest]{wr} && ws.control.s == old(ws.control.s)
+
+//@ func (*roundRobinWriteScheduler).Pop :: ws -> wr, ok
+//@   props C20
+//@   requires ws != nil && rrInv(ws)
+//@   ensures [C20:control-first] len(old(ws.control.s)) > 0 ==> ok && wr == old(ws.control.s)[0] && ws.control.s == old(ws.control.s)[1:]
+//@   ensures [C20:nothing-without-streams] len(old(ws.control.s)) == 0 && old(ws.head) == nil ==> !ok
+//@   loop 1 invariant len(ws.control.s) == 0 && ws.control.s == old(ws.control.s) && rrInv(ws) && q != nil && wfQueue(q)
